@@ -1,5 +1,5 @@
 # C10 — source life cycle: start/stop always completes, cleans up, and is repeatable
-CLAIMED = False
+CLAIMED = True
 NOT_YET = "check under construction (nothing is claimed for it yet)"
 
 CFG = dict(
